@@ -45,12 +45,12 @@ class StatCalculator:
         self._count += 1
         if self._count == 1:
             self._mean = 1.*value
-            self._M2 = 0.*value
+            self._M2 = 0.*value.real
         else:
             delta = value - self._mean
             self._mean = self.mean + delta*(1./self._count)
             delta2 = value - self._mean
-            self._M2 = self._M2 + delta*delta2
+            self._M2 = self._M2 + (delta.conjugate()*delta2).real
 
     @property
     def mean(self):
